@@ -412,3 +412,70 @@ def completion(m, d, rng):
 
 def dict_term(d, it):
     return lst(f"({it.s(k)}, ({z(v[0])}, {z(v[1])}))" for k, v in d.items())
+
+
+# ----------------------------------------------------------------------------- constructor trees (Cons.v `form`)
+def oid_term(ast, it):
+    if ast.get("id") is None:
+        return "None"
+    vb = ast.get("vb") or [0, 1]
+    return f"(Some ({it.s(ast['id'])}, ({z(vb[0])}, {z(vb[1])})))"
+
+def chain(children):
+    """the order in which the Python constructors chain their arguments: non-str first, then str"""
+    return [c for c in children if c["k"] != "str"] + [c for c in children if c["k"] == "str"]
+
+def dflt_term(ast, it):
+    d = ast.get("default") or []
+    out = []
+    for x in d:
+        if isinstance(x, str):
+            out.append(f"({it.s(x)}, (0, 1))")
+        else:
+            out.append(f"({it.s(x['id'])}, ({z(x['b'][0])}, {z(x['b'][1])}))")
+    return lst(out)
+
+def form_term(ast, it):
+    k = ast["k"]
+    if k == "str":
+        return f"(FLeaf {it.s(ast['id'])} 0 1)"
+    if k == "var":
+        return f"(FLeaf {it.s(ast['id'])} {z(ast['b'][0])} {z(ast['b'][1])})"
+    ch = ast.get("ch", [])
+    if k == "Imply":
+        return f"(FImply {oid_term(ast, it)} {form_term(ch[0], it)} {form_term(ch[1], it)})"
+    if k == "Not":
+        return f"(FNot {form_term(ch[0], it)})"
+    args = lst(form_term(c, it) for c in chain(ch))
+    if k == "AtLeast":
+        return f"(FAtLeast {oid_term(ast, it)} {z(ast['v'])} {opt(ast.get('s'), z)} {args})"
+    if k == "AtMost":
+        return f"(FAtMost {oid_term(ast, it)} {z(ast['v'])} {args})"
+    if k in ("All", "Any", "Xor", "XNor"):
+        return f"(F{k} {oid_term(ast, it)} {args})"
+    if k in ("CcAny", "CcXor"):
+        return f"(F{k} {oid_term(ast, it)} {dflt_term(ast, it)} {args})"
+    if k == "Stingy":
+        return f"(FStingy {oid_term(ast, it)} {args})"
+    raise ValueError(k)
+
+def ast_sem(ast, env):
+    """independent documented truth function of a constructor tree over 0/1 leaves"""
+    k = ast["k"]
+    if k in ("str", "var"):
+        return env[ast["id"]]
+    vals = [ast_sem(c, env) for c in ast.get("ch", [])]
+    n = sum(vals)
+    if k == "AtLeast":
+        s = ast.get("s")
+        if s is None:
+            s = 1 if ast["v"] > 0 else -1
+        return int(s * n >= ast["v"])
+    if k == "AtMost": return int(n <= ast["v"])
+    if k in ("All", "Stingy"): return int(all(vals))
+    if k in ("Any", "CcAny"): return int(any(vals))
+    if k in ("Xor", "CcXor"): return int(n == 1)
+    if k == "XNor": return int(n != 1)
+    if k == "Imply": return int((not vals[0]) or vals[1])
+    if k == "Not": return int(not vals[0])
+    raise ValueError(k)
